@@ -11,6 +11,7 @@ import (
 	"reflect"
 	"sync"
 
+	numscript "github.com/formancehq/numscript"
 	"github.com/formancehq/numscript/internal/interpreter"
 	"github.com/formancehq/numscript/internal/parser"
 )
@@ -178,6 +179,30 @@ func opConcurrent(c *ExecCase) map[string]any {
 		}(i)
 	}
 	wg.Wait()
+	// a call is over when it returns: through the public API with a context that is cancelled while the store is
+	// answering its first call; afterwards the caller writes to the maps it had handed over (under -race, a run
+	// that is still going on behind the caller's back shows as a data race)
+	func() {
+		defer func() { _ = recover() }()
+		ctx, cancel := context.WithCancel(context.Background())
+		defer cancel()
+		ownVars := copyVars(c.Vars)
+		ownBal := mkBalances(c.Balances)
+		ownMeta := mkMeta(c.Meta)
+		cs := &cancellingStore{inner: interpreter.StaticStore{Balances: ownBal, Meta: ownMeta}, cancel: cancel}
+		flags := map[string]struct{}{}
+		for _, f := range c.Flags {
+			flags[f] = struct{}{}
+		}
+		pr2 := numscript.Parse(c.Script)
+		_, _ = pr2.RunWithFeatureFlags(ctx, ownVars, cs, flags)
+		for k, v := range ownVars {
+			ownVars[k] = v + " "
+		}
+		ownVars["after_the_call"] = "x"
+		ownBal["after_the_call"] = interpreter.AccountBalance{"USD": big.NewInt(1)}
+		ownMeta["after_the_call"] = interpreter.AccountMetadata{"k": "v"}
+	}()
 	diffs := []string{}
 	for i := 1; i < n; i++ {
 		if !reflect.DeepEqual(canonOut(outs[0]), canonOut(outs[i])) {
@@ -192,4 +217,24 @@ func opConcurrent(c *ExecCase) map[string]any {
 	}
 	res["go"] = outs[0]
 	return res
+}
+
+
+// cancellingStore cancels the caller's context once its first answer is ready
+type cancellingStore struct {
+	inner  interpreter.StaticStore
+	cancel context.CancelFunc
+	once   sync.Once
+}
+
+func (s *cancellingStore) GetBalances(ctx context.Context, q interpreter.BalanceQuery) (interpreter.Balances, error) {
+	b, err := s.inner.GetBalances(ctx, q)
+	s.once.Do(s.cancel)
+	return b, err
+}
+
+func (s *cancellingStore) GetAccountsMetadata(ctx context.Context, q interpreter.MetadataQuery) (interpreter.AccountsMetadata, error) {
+	m, err := s.inner.GetAccountsMetadata(ctx, q)
+	s.once.Do(s.cancel)
+	return m, err
 }
